@@ -77,7 +77,8 @@ namespace
 
 void vf::run_case(Src &s, Ctx &c)
 {
-    ompl::RNG::setSeed(1 + (unsigned)s.u(0, 1000000));
+    const unsigned seed = 1 + (unsigned)s.u(0, 1000000);
+    ompl::RNG::setSeed(seed);
     ProblemOpts o;
     o.allowAbnormal = false;
     o.onlySampleableGoal = true;
@@ -97,11 +98,62 @@ void vf::run_case(Src &s, Ctx &c)
     // ---- input path
     og::PathGeometric path(si);
     size_t shape = s.weighted({3, 5, 1, 1, 1});
-    const char *shapeName[] = {"random-valid-polyline", "detour-around-obstacle", "tiny(1-2 states)", "with-repeated-states", "all-states-identical"};
+    const char *shapeName[] = {"random-valid-polyline", "detour-around-obstacle", "tiny(1-2 states)", "with-repeated-states", "all-states-identical",
+                               "serpentine-corridor"};
     double sx, sy;
     P->ps.xy(P->starts[0], sx, sy);
     path.append(P->starts[0]);
-    if (shape == 1 && !P->env.obs.empty())
+    // A sixth of the cases (decided by the already decoded seed; none of the saved cases has such a seed, so they keep their meaning) replace
+    // the environment by a serpentine corridor - thin walls reaching alternately from the bottom and from the top - and walk through its
+    // gaps with many vertices, close to the wall tips: long paths on which only nearby vertices see each other and every shortcut grazes a
+    // corner. Random balls and boxes almost never form such passages.
+    if (seed % 6 == 0)
+    {
+        shape = 5;
+        double gx, gy;
+        P->ps.xy(P->goals[0], gx, gy);
+        P->env.obs.clear();
+        int walls = s.in(3, 7);
+        double gap = s.real(0.5, 1.6), thick = s.real(0.15, 0.5);
+        bool right = sx < 0.5 * (P->ps.lo + P->ps.hi);
+        struct W
+        {
+            double x, g0, g1;
+        };
+        std::vector<W> ws;
+        for (int j = 0; j < walls; ++j)
+        {
+            double x = P->ps.lo + (P->ps.hi - P->ps.lo) * (j + 1.0) / (walls + 1.0);
+            if (std::fabs(x - sx) < 0.5 + thick || std::fabs(x - gx) < 0.5 + thick)
+                continue;
+            Obstacle o{};
+            o.ball = false;
+            o.x0 = x - 0.5 * thick;
+            o.x1 = x + 0.5 * thick;
+            bool fromBottom = j % 2 == 0;
+            o.y0 = fromBottom ? P->ps.lo - 1 : P->ps.lo + gap;
+            o.y1 = fromBottom ? P->ps.hi - gap : P->ps.hi + 1;
+            P->env.obs.push_back(o);
+            if (right ? x > sx : x < sx)
+                ws.push_back({x, fromBottom ? P->ps.hi - gap : P->ps.lo, fromBottom ? P->ps.hi : P->ps.lo + gap});
+        }
+        if (!right)
+            std::reverse(ws.begin(), ws.end());
+        double px = sx, py = sy;
+        for (auto &w : ws)
+        {
+            // through the gap, at a generated height inside it (often close to the wall tip)
+            double ty = w.g0 + (w.g1 - w.g0) * (s.flag() ? s.real(0.05, 0.3) : s.real(0.05, 0.95));
+            if (w.g0 == P->ps.lo)
+                ty = w.g0 + w.g1 - ty;  // tip is at the top of the gap for walls reaching down
+            int pieces = s.in(2, 8);
+            for (int k = 1; k <= pieces; ++k)
+                appendXY(*P, s, path, px + (w.x - px) * k / pieces, py + (ty - py) * k / pieces, scratch, tmp);
+            px = w.x;
+            py = ty;
+        }
+    }
+    else if (shape == 1 && !P->env.obs.empty())
     {
         // hug an obstacle: walk around it at a small margin
         const Obstacle &ob0 = P->env.obs[s.pick(P->env.obs.size())];
